@@ -64,6 +64,7 @@ PROPS["C09"] = {
     "trip_re": "alloc_exceeds|decode_crash.*|roundtrip_differs.*|truncated_accepted|behaviour.*|wrong_body_for_key.*|record_survives|not_started.*|roundtrip_fails:gzip:.*|roundtrip_fails:br:.*|decoder_crash:(gzip|br):.*",
     "suites": [{"name": "codec", "quick": 4000, "thorough": 60000, "thorough_seeds": 3},
                {"name": "codecs", "quick": 500, "thorough": 10000, "thorough_seeds": 2},
+               {"name": "resp", "args": ["-opt", "c13"], "stateful": True, "seq_marker": "case", "quick": 400, "thorough": 6000, "thorough_seeds": 2},
                {"name": "store", "stateful": True, "seq_marker": "open", "quick": 1500, "thorough": 40000, "thorough_seeds": 2}],
     "rule": 'codecs: what serving a restored entry runs its stored gzip/br variants through — multi-member and damaged streams, see C12. ' + _STORE_RULE + " codec: reachable entries built through the public API (Get/Cacheable/HitForPass with a recording store): hit, empty "
             "hit-for-pass, hit-for-pass keeping an old response; header sets incl. multi-valued, empty, nil, non-ASCII, quoting; bodies "
@@ -122,14 +123,14 @@ _SYS_TRUSTED = ["Go runtime: sync.Mutex/RWMutex and unbuffered channel semantics
 PROPS["C01"] = {
     "suites": [{"name": "sched", "stateful": True, "quick": 1500, "thorough": 30000, "thorough_seeds": 4},
                {"name": "fault", "quick": 90, "thorough": 3000, "thorough_seeds": 2}],
-    "trip_re": "overlap|waiter_not_served|second_entry_for_key|upstream_contacts_ne_one",
+    "trip_re": "overlap|waiter_not_served|second_entry_for_key|upstream_contacts_ne_one|blocked",
     "rule": _SCHED_RULE + _FAULT_RULE, "assumptions": ["Sys abstracts from int64 wrap-around of createdAt+ttl (covered at entry level, C04.overflow_never_served)"],
     "trusted_base": _SYS_TRUSTED,
 }
 PROPS["C02"] = {
     "suites": [{"name": "sched", "stateful": True, "quick": 1500, "thorough": 30000, "thorough_seeds": 4},
                {"name": "proxy", "stateful": True, "seq_marker": "case", "quick": 30, "thorough": 300, "thorough_seeds": 1},
-               {"name": "fault", "quick": 120, "thorough": 3000, "thorough_seeds": 2}],
+               {"name": "fault", "quick": 180, "thorough": 3000, "thorough_seeds": 2}],
     "trip_re": "blocked|upstream_hang_not_ended",
     "rule": "fault: an origin whose body is not what its Content-Encoding says (junk or a stream cut in the middle, for gzip/br/lz4/zst/snz): three requests for the URL, each ends within the client's time-out (`blocked` otherwise). " + _SCHED_RULE + " A goroutine that does not reach its next stop within 5 s, or is not finished when the schedule has been wound down, trips 'blocked'.",
     "assumptions": ["every upstream request ends (the property conditions on it; the proxy timeout converts a silent upstream into 504)",
@@ -146,7 +147,8 @@ PROPS["C04"] = {
     "trusted_base": _SYS_TRUSTED,
 }
 PROPS["C07"] = {
-    "suites": [{"name": "sched", "stateful": True, "quick": 1500, "thorough": 30000, "thorough_seeds": 4}],
+    "suites": [{"name": "sched", "stateful": True, "quick": 1500, "thorough": 30000, "thorough_seeds": 4},
+               {"name": "fault", "quick": 180, "thorough": 3000, "thorough_seeds": 2}],
     "trip_re": "queued_during_hfp|hfp_period_wrong",
     "rule": _SCHED_RULE, "assumptions": [], "trusted_base": _SYS_TRUSTED + ["time.ParseDuration for the configured period"],
 }
